@@ -24,10 +24,15 @@ def make_pair(case):
     na = max(2, min(n, case['nactive']))
     active = np.sort(rs.permutation(n)[:na]) if case['nulls'] else np.arange(n)
     na = active.size
-    Q, _ = np.linalg.qr(rs.normal(size=(na, na)))
-    ev = np.exp(rs.uniform(0., np.log(case['cond']), na))
-    Ka = (Q * ev).dot(Q.T)
-    Ka = (Ka + Ka.T) / 2.
+    if case.get('structure') == 'chain' and na >= 3:
+        # structured stiffness: fixed-fixed chain of equal springs, tridiag(-1, 2, -1) - positive definite, and every interior column
+        # sums to exactly zero although none of its entries is zero
+        Ka = case['cond'] * (2. * np.eye(na) - np.eye(na, k=1) - np.eye(na, k=-1))
+    else:
+        Q, _ = np.linalg.qr(rs.normal(size=(na, na)))
+        ev = np.exp(rs.uniform(0., np.log(case['cond']), na))
+        Ka = (Q * ev).dot(Q.T)
+        Ka = (Ka + Ka.T) / 2.
     cls = case['kg_class']
     G = rs.normal(size=(na, na))
     if cls == 'negdef':
@@ -124,6 +129,7 @@ def check_random(case, ctx):
     k = case['k']
     sparse = case['sparse']
     name = 'lb[%s]' % ('sparse' if sparse else 'dense')
+    ctx.label('K:' + case.get('structure', 'random'))
     ctx.label('size:%s' % ('<=24' if case['size'] <= 24 else '<=120' if case['size'] <= 120 else '>120'),
               'class:' + case['kg_class'], 'nulls' if case['nulls'] else 'full', name)
     ctx.nontrivial = bool(case['size'] > k + 2 and (case['nulls'] or case['kg_class'] == 'indef'))
@@ -300,7 +306,8 @@ def _random_strategy(draw, tier='quick'):
             'kg_class': draw(st.sampled_from(['negdef', 'rankdef', 'indef'])),
             'k': draw(st.integers(1, 25)), 'sparse': draw(st.booleans()),
             'cond': draw(st.sampled_from([10., 1e2, 1e4])),
-            'lam1': draw(gen.fl(1.5, 50.)), 'scale': draw(gen.fl(0.2, 1.4))}
+            'lam1': draw(gen.fl(1.5, 50.)), 'scale': draw(gen.fl(0.2, 1.4)),
+            'structure': draw(st.sampled_from(['random', 'random', 'random', 'chain']))}
 
 
 @st.composite
@@ -309,9 +316,18 @@ def _panel_strategy(draw, tier='quick'):
                                allow_offset=False))
     v = [-abs(draw(gen.fl(0.1, 1.))), draw(st.one_of(gen.fl(-1., 0.), gen.fl(0., 3.))), draw(gen.fl(-0.5, 0.5))]
     case['N'] = v
-    case['k'] = draw(st.integers(1, 12))
-    case['sparse'] = draw(st.booleans())
+    # the requested number of values ranges up to the package default (25): with mixed-sign load triples there are then fewer positive
+    # multipliers than requested values, and negative ones (possibly of smaller magnitude) are part of what comes back
+    case['k'] = draw(st.one_of(st.integers(1, 12), st.integers(8, 25)))
+    case['sparse'] = draw(st.sampled_from([True, True, False]))
     case['lam1'] = draw(gen.fl(1.5, 20.))
+    if draw(st.integers(0, 3)) == 0:
+        # tension-dominated biaxial load on a simply supported panel through the sparse legacy entry point with many requested values:
+        # few positive multipliers, negative ones of smaller magnitude next to them
+        case['flags'] = dict(zip(gen.flag_names(), [0.] * 16 + [0., 1.] * 4))
+        case['N'] = [-abs(draw(gen.fl(0.1, 1.))), draw(gen.fl(1., 3.)), draw(gen.fl(-0.3, 0.3))]
+        case['k'] = draw(st.integers(12, 25))
+        case['sparse'] = True
     return case
 
 
@@ -320,7 +336,7 @@ SUBS = [
         rule='random symmetric pairs: K SPD on a random active subset (others null), KG negative definite / rank deficient / '
              'indefinite, sizes 5..400, k 1..25, both solver switches; non-trivial = size > k+2 and (null rows or indefinite KG)',
         shards_quick=16),
-    Sub('panel_pairs', _panel_strategy, check_panel, quick=200, thorough=3000,
+    Sub('panel_pairs', _panel_strategy, check_panel, quick=480, thorough=4000,
         rule='(k0, kG0) of generated plate/cpanel/plate_w models under compressive+shear loads through analysis.lb and Panel.lb; '
              'non-trivial = restrained amplitudes present (null rows/columns)', shards_quick=16),
     Sub('conecyl_lb', _conecyl_strategy, check_conecyl, quick=96, thorough=1500,
